@@ -2,8 +2,12 @@ from pyvc.runner import register_modules
 
 register_modules("C06", "contracts.C06_routing", "bounded.C06_api")
 LEVEL = "other"
-EXPLANATION = ("VC for the allocator of system bytes plus a distinctness lemma; lock-discipline obligation with forced-interleaving "
-               "replay; executed contracts for transaction bookkeeping and dispatcher life cycle; bounded concurrent-requesters pass. "
+EXPLANATION = ("(VC) the allocator of system bytes plus the distinctness lemma; (VC) routing: HsmsProtocol._on_connection_message_received (all 36 "
+               "SType x state x closing cases) and SecsIProtocol._on_connection_message_received put a message whose system bytes have a waiting "
+               "requester into exactly that requester's queue, once, touch no other queue and raise no message_received - for all 2^32 system "
+               "bytes and any set of open transactions; (FD) lock-discipline obligation with forced-interleaving replay, executed contracts for "
+               "transaction book-keeping and dispatcher life cycle; (BND) concurrent requesters. "
                "Concurrency is covered only through these obligations, not by exploring interleavings.")
-ASSUMPTIONS = ["A-QUEUE: queue.Queue is a thread-safe FIFO", "routing of control responses in every session state: see C05 (finite-domain)",
+ASSUMPTIONS = ["A-QUEUE: queue.Queue is a thread-safe FIFO (seen through AbsQueue with a ghost put counter per system id)",
+               "call-outs as in C05 (send_message, put_nowait, fire, decode-for-logging, state machine transitions validated by C05's FD)",
                "threading.Lock provides mutual exclusion (A-EXT)"]
